@@ -110,7 +110,7 @@ NoPert(s) == [s EXCEPT !.est = <<>>, !.eft = <<>>, !.lst = <<>>, !.lft = <<>>, !
 Inv_C09 ==
   \A r \in Perms(Len(cfg.tasks)):
      LET c2 == Reranked(r)
-     IN /\ (pc \in {"init", "recorded"} => NoPert(UpdateF(c2, Prev)) = NoPert(UpdateF(cfg, Prev)))
+     IN /\ (pc \in {"init", "recorded"} => UpdateF(c2, Prev) = UpdateF(cfg, Prev))
         /\ (pc = "allocated" => StartPhaseF(c2, opts, st) = StartPhaseF(cfg, opts, st))
         \* the whole run: same logs, time, costs, status for every visiting order
         /\ (pc = "returned" => SimulateF(c2, opts).lg = lg)
